@@ -13,6 +13,9 @@ use crate::speech::{BRAILLE_RULES, SpeechRulesWithContext, make_quoted_string};
 use crate::canonicalize::get_parent;
 use std::ops::Range;
 
+/// Stands for the 8-dot cell '⣍' (row separator in Nemeth and Vietnam tables) until the highlighting is done -- see braille_mathml()
+const ROW_SEPARATOR_PLACEHOLDER: char = '\u{E08D}';
+
 static UEB_PREFIXES: phf::Set<char> = phf_set! {
     '⠼', '⠈', '⠘', '⠸', '⠐', '⠨', '⠰', '⠠',
 };
@@ -46,14 +49,16 @@ pub fn braille_mathml(mathml: Element, nav_node_id: &str) -> Result<(String, usi
             _ => braille_string.trim_matches('⠀').to_string(),    // probably needs cleanup if someone has another code, but this will have to get added by hand
         };
 
-        return Ok(
+        let (braille, start, end) =
             if highlight_style != "Off" {
                 highlight_braille_chars(braille, &braille_code, highlight_style == "All")
             } else {
                 let end = braille.chars().count();
                 (braille, 0, end)
-            }
-        );
+            };
+        // The highlight is found by looking for cells with dots 7 & 8, so a cell that has those dots in its own right can't be in the
+        // string before now: the rules write ROW_SEPARATOR_PLACEHOLDER for the row separator '⣍' and it becomes the real cell here.
+        return Ok( (braille.replace(ROW_SEPARATOR_PLACEHOLDER, "⣍"), start, end) );
     });
 
     /// highlight with dots 7 & 8 based on the highlight style
